@@ -255,7 +255,7 @@ class World(object):
                 yaml.safe_dump(conf, f)
             if not isinstance(MA.os, _OsProxy):
                 MA.os = _OsProxy(MA.os)
-            return webtest.TestApp(make_wsgi_app(self.confroot, allow_listing=True))
+            return webtest.TestApp(make_wsgi_app(self.confroot, allow_listing=False))
         pc = ProxyConfiguration(conf, conf_base_dir=self.base, seed=False, renderd=False)
         return webtest.TestApp(MapProxyApp(pc.configured_services(), pc.base_config))
 
@@ -421,7 +421,7 @@ def observe_raw(world, path_info, qs, flow='wms', extra_headers=None):
         else:
             o.out = 'dispatch'
     elif resp.status_int >= 500 and 'ServiceException' not in o.text and 'TileMapServerError' not in o.text \
-            and 'ExceptionReport' not in o.text:
+            and 'ExceptionReport' not in o.text and not o.text.startswith('internal error: invalid request'):
         o.out = 'error'
     elif resp.status_int >= 400:
         o.out = 'rejected'
